@@ -49,7 +49,7 @@ SIMPLE = [
     (r"self\._comms\.child_end\.put\(\(\(True, result\), self\._user_state\)\)", ['sendFinalOk']),
     (r"self\._comms\.child_end\.put\(\(\(False, e\), self\._user_state\)\)", ['sendFinalErrCur']),
     (r"self\._ctrl_comms\.parent_end\.send\(None\)", ['releaseCtrl']),
-    (r"self\._ctrl_thread(_loc)?\.join\(\)", ['nop']),
+    (r"self\._ctrl_thread(_loc)?\.join\(\)", ['joinCtrl']),
     (r"self\._comms\.child_end\.close\(\)", ['closeComms']),
     # remote backend
     (r"signal\.signal\(signal\.SIGTERM, signal\.SIG_DFL\)", ['nop']),
